@@ -287,6 +287,48 @@ def law_fuse(ch):
     ch.mark_nontrivial(big and gen.is_sparse(spec))
 
 
+def law_empty_groups(ch):
+    """documented: an empty group is ignored (expand_empty=False) or becomes
+    a new size-one axis at (first fused axis + its position in the list)"""
+    case = ch.draw(fuse_cases(), "case")
+    spec = case["x"]
+    x = gen.build(spec)
+    groups = [tuple(g) for g in case["groups"]]
+    if not x.blocks or not groups or any(
+            a >= x.ndim for g in groups for a in g):
+        return
+    nempty = ch.integer(1, 2, "nempty")
+    withempty = list(groups)
+    for k in range(nempty):
+        withempty.insert(ch.integer(0, len(withempty), f"pos{k}"), ())
+    mode = ch.choice(["auto", "insert", "concat"], "mode")
+    mkw = {} if spec["ferm"] else {"mode": mode}
+    plain = must(x.fuse, *groups, what="fuse", **mkw)
+    ign = must(x.fuse, *withempty, expand_empty=False,
+               what="fuse(expand_empty=False)", **mkw)
+    same_array(ign, plain, "empty-group:ignored", exact=True)
+    expand = ch.boolean("explicit-kw")
+    kw = {"expand_empty": True} if expand else {}
+    y = must(x.fuse, *withempty, what="fuse(empty group)", **kw, **mkw)
+    require_valid(y, "empty-group:invalid", f"groups {withempty}")
+    g0 = min(a for g in groups for a in g)
+    newpos = [g0 + k for k, g in enumerate(withempty) if not g]
+    require(y.ndim == plain.ndim + nempty, "empty-group:rank",
+            lambda: f"{y.ndim} for groups {withempty}")
+    e = G.identity(spec["symm"])
+    for p_ in newpos:
+        require(p_ < y.ndim and dict(y.indices[p_].chargemap) == {e: 1},
+                "empty-group:position",
+                lambda: f"groups {withempty}: expected a size-one charge-zero "
+                        f"axis at {p_}, shape {y.shape}")
+    back = y
+    for p_ in sorted(newpos, reverse=True):
+        back = must(back.squeeze, p_, what="squeeze")
+    same_array(back, plain, "empty-group:content", exact=True)
+    ch.label(f"nempty={nempty}")
+    ch.mark_nontrivial(any(len(g) >= 2 for g in groups))
+
+
 # ------------------------------------------------------------ exhaustive ----
 
 EXH = {
@@ -344,6 +386,9 @@ LAWS = [
         doc="relocation through the fused index's own tables, layout, "
             "direction, sub-index list, round trip, insert==concat==auto, "
             "cached==uncached"),
+    Law("empty_groups", law_empty_groups, quick=500, thorough=6000,
+        doc="empty groups are ignored or become size-one axes at the "
+            "documented positions; content unchanged"),
     Law("exhaustive", law_exhaustive, kind="enum", cases=exhaustive_cases,
         doc="the same laws for every Z2/U1 structure of rank<=3, every "
             "ordered grouping and every subset of valid sectors (quick: "
